@@ -93,7 +93,8 @@ def role(exc, block_exc):
     return ("other", type(exc).__name__)
 
 
-BLOCK_REF = [None]  # the exception object the current program's block raised (if any)
+BLOCK_REF = [None]
+STACK_REF = [None]  # the stack of the program that is running (library side only)
 
 
 def behave(i, behaviour, received):
@@ -162,6 +163,13 @@ def entry_objects(i, kind, behaviour, log, block_ref, cb_style="full"):
     def record(received):
         log.append(("exit", i, role(received, block_ref[0])))
 
+    async def close_own():
+        # behaviour "close-own" of the exit registered FIRST: it closes the stack it is registered on while that
+        # stack is unwinding - there is nothing left on it by then, so this is a falsy exit like any other (the
+        # nested reference has no stack: STACK_REF is empty there)
+        if behaviour == "close-own" and i == 0 and STACK_REF[0] is not None:
+            await STACK_REF[0].aclose()
+
     class ACM:
         async def __aenter__(self):
             log.append(("enter", i))
@@ -173,6 +181,7 @@ def entry_objects(i, kind, behaviour, log, block_ref, cb_style="full"):
 
         async def __aexit__(self, et, ev, tb):
             record(ev)
+            await close_own()
             return behave(i, behaviour, ev)
 
     class SCM:
@@ -202,6 +211,7 @@ def entry_objects(i, kind, behaviour, log, block_ref, cb_style="full"):
 
     async def aexit(et, ev, tb):
         record(ev)
+        await close_own()
         return behave(i, behaviour, ev)
 
     def sexit(et, ev, tb):
@@ -210,6 +220,7 @@ def entry_objects(i, kind, behaviour, log, block_ref, cb_style="full"):
 
     async def acallback(*args, **kwargs):
         log.append(("callback", i, args, tuple(sorted(kwargs.items()))))
+        await close_own()
         return behave(i, behaviour, None)
 
     def scallback(*args, **kwargs):
@@ -304,6 +315,7 @@ async def run_stack(case, log):
     things = [pair[0] for pair in _objects(case, log, block_ref)]
     try:
         async with a.ExitStack() as stack:
+            STACK_REF[0] = stack
             for how, thing in things:
                 if how == "enter":
                     value = await stack.enter_context(thing)
@@ -324,7 +336,7 @@ async def run_stack(case, log):
     except BaseException as exc:  # noqa: B902
         return ("raise", role(exc, block_ref[0]))
     finally:
-        BLOCK_REF[0] = None
+        BLOCK_REF[0] = STACK_REF[0] = None
     return ("ok",)
 
 
@@ -397,6 +409,8 @@ def entry_space():
             behaviours.append("enter-fails-attr")
         if kind.startswith("callback"):
             behaviours = ["falsy", "truthy", "raise", "raise-base"]
+        if kind in ("acm", "push-async", "push-cm", "callback-async"):
+            behaviours.append("close-own")
         out.extend((kind, b) for b in behaviours)
     return out
 
@@ -421,7 +435,7 @@ def programs(draw, lo, hi):
         # the very same manager / handler object is registered once more (re-entrant managers, shared handlers)
         j = draw(st.integers(1, len(entries) - 1))
         src = entries[draw(st.integers(0, j - 1))]
-        if src[1] not in ("enter-fails", "enter-fails-attr"):
+        if src[1] not in ("enter-fails", "enter-fails-attr", "close-own"):
             entries[j] = [src[0].replace("+same", "") + "+same", src[1]]
     return {"entries": entries, "block": draw(st.sampled_from(["normal", "raises"])),
             "cb_style": draw(st.sampled_from(["full", "bare", "bare", "pos", "kw"]))}
@@ -518,6 +532,11 @@ def check_history(case):
                     "callback-async": acb, "callback-sync": scb}[kind]
 
         running_on = [None]
+        reg_seq = {}  # exit id -> how many exits had been registered (anywhere) before it
+
+        def mark(e):
+            reg_seq[e] = len(reg_seq)
+
         unwind_start = [0]
         moved_away = []
 
@@ -528,6 +547,7 @@ def check_history(case):
             before = unwind_start[0] = len(ran)
             del moved_away[:]
             late_before = len(registered_late)
+            seq_before = len(reg_seq)
             try:
                 if with_exc:
                     exc = Block("leave")
@@ -548,6 +568,12 @@ def check_history(case):
                               [e for e in registered_late[late_before:] if owner.get(e) == idx])
             if ran_now != expected:
                 problems.append(("unwind-ran-wrong-exits", f"stack {idx}: ran {ran_now} expected {expected}"))
+            # last in, first out - also for exits that came over from another stack by pop_all(): those that were
+            # registered before this unwind began run in the reverse order of their registration (ids count up)
+            early = [reg_seq[e] for e, _ in ran[before:] if e in reg_seq and reg_seq[e] < seq_before]
+            if early != sorted(early, reverse=True):
+                problems.append(("exits-not-in-reverse-registration-order",
+                                 f"stack {idx}: ran {[e for e, _ in ran[before:]]} registered as {early}"))
             for e in expected:
                 owner[e] = None
 
@@ -575,6 +601,7 @@ def check_history(case):
                 except New:
                     failed_enter.add(eid)
                     continue
+                mark(eid)
                 owner[eid] = cur
             elif name == "register-registering":
                 # an exit that, while the stack unwinds, registers one more callback on that same stack:
@@ -591,6 +618,7 @@ def check_history(case):
                     # registers on the stack object it was created for (which may have given this very
                     # exit away through pop_all in the meantime)
                     stack.callback(late_cb)
+                    mark(late)
                     owner[late] = home
                     registered_late.append(late)
                     return False
@@ -603,6 +631,7 @@ def check_history(case):
                     stack.push(registering)
                 else:
                     stack.callback(registering)
+                mark(eid)
                 owner[eid] = cur
             elif name == "register-popping":
                 # an exit that, while it runs, takes everything still pending on its stack away with pop_all():
@@ -629,6 +658,7 @@ def check_history(case):
                     stack.push(popping)
                 else:
                     stack.callback(popping)
+                mark(eid)
                 owner[eid] = cur
             elif name == "aclose":
                 await unwind(cur, False)
